@@ -504,14 +504,16 @@ func main() {
 			}
 		}
 	}
+	t0 := time.Now()
+	lap := func() string { d := time.Since(t0).Round(time.Millisecond); t0 = time.Now(); return d.String() }
 	n2, bad2 := twoCallers(out, r, thorough)
-	fmt.Fprintf(os.Stderr, "c17 driver: %d two-caller cases (%d with a hung caller; stops at 5)\n", n2, bad2)
+	fmt.Fprintf(os.Stderr, "c17 driver: %d two-caller cases (%d with a hung caller) in %s\n", n2, bad2, lap())
 	nlo := multiPart(out, r, thorough)
-	fmt.Fprintf(os.Stderr, "c17 driver: %d split list-offsets cases (one sub-response cut)\n", nlo)
+	fmt.Fprintf(os.Stderr, "c17 driver: %d split list-offsets cases (one sub-response cut) in %s\n", nlo, lap())
 	nmb := multiBroker(out, r, thorough)
-	fmt.Fprintf(os.Stderr, "c17 driver: %d split/merge cases on a three-broker cluster\n", nmb)
+	fmt.Fprintf(os.Stderr, "c17 driver: %d split/merge cases on a three-broker cluster in %s\n", nmb, lap())
 	ntp, tslow := transportPath(out, r, thorough)
-	fmt.Fprintf(os.Stderr, "c17 driver: %d transport/writer end-to-end cases (slowest %v)\n", ntp, tslow.Round(time.Millisecond))
+	fmt.Fprintf(os.Stderr, "c17 driver: %d transport/writer end-to-end cases (slowest %v) in %s\n", ntp, tslow.Round(time.Millisecond), lap())
 	out.Flush()
 	fmt.Fprintf(os.Stderr, "c17 driver: %d conn cases (%d slower than 2s, worst %v), %d ReadResponse cases over %d apis (%d api versions skipped)\n",
 		nconn, slow, worst.Round(time.Millisecond), nrr, len(apis), skipped)
